@@ -714,3 +714,36 @@ Definition sdstep (serve : bool) (s : sdstate) (e : sdev) : sdstate :=
        reads them and serves every armed connection *)
     if sd_socket s =? 0 then s else mksd 0 0 false
   end.
+
+(* ------------------------------------------------------------------ *)
+(** * Which frames the flood counters count
+
+    The windowed counter a well-formed frame bumps is decided by its type,
+    flags and stream id.  The length of the payload plays no part, with one
+    exception that is the definition of the counter itself: "empty DATA" is a
+    DATA frame without content (payload of length 0, or padding only) that
+    does not end the stream.  [content_len] is the payload length once the
+    padding is stripped (for every other type it is not looked at).
+      0  RST_STREAM                      every one
+      4  PING                            without ACK
+      6  SETTINGS                        without ACK (the one of the connection preface included)
+      8  DATA                            no content and no END_STREAM
+      9  WINDOW_UPDATE                   on stream 0 (a zero increment is a connection error before that)
+      10 CONTINUATION                    every one, empty or not, until the block ends *)
+Definition qualifying (h : fheader) (content_len : N) : option N :=
+  match ftyp h with
+  | FRstStream => Some 0
+  | FPing => if has_flag (fflags h) 1 then None else Some 4
+  | FSettings => if has_flag (fflags h) 1 then None else Some 6
+  | FData => if (content_len =? 0) && negb (has_flag (fflags h) 1) then Some 8 else None
+  | FWindowUpdate => if stream_id h =? 0 then Some 9 else None
+  | FContinuation => Some 10
+  | _ => None
+  end.
+
+(** the counters bumped by a run of frames (those that are counted at all) *)
+Fixpoint counted (fs : list (fheader * N)) : list N :=
+  match fs with
+  | [] => []
+  | (h, cl) :: r => match qualifying h cl with Some k => k :: counted r | None => counted r end
+  end.
